@@ -423,10 +423,14 @@ def main_check(pid, argv):
     violations = []      # (kind, replay_path, note)
     known_lines = []
     # 1. proof step
+    pre_problems = list(mod.pre_proof()) if hasattr(mod, "pre_proof") else []
     if args.no_proof:
         proof = dict(ok=True, obligations=0, discharged=0, theorems=[], problems=[], log="", checker_cmd="skipped", wall=0)
     else:
         proof = proof_step(pid, thorough=(tier == "thorough"))
+    if pre_problems:
+        proof["problems"] = ["translator: " + p for p in pre_problems] + proof["problems"]
+        proof["ok"] = False
     # 2-5. correspondence + oracle
     rng = random.Random(args.seed)
     corpus = corpus_cases(pid)
